@@ -22,7 +22,9 @@ CFG = {
                        "{., %2e, %2E, a, %2f, %} as one segment (6+36+216+1296); every slash placement (1-2 leading, 1-3 "
                        "per inner gap, 0-2 trailing) for every list of <= 4 segments over {a, %2e, b%2fc}; a boundary grid "
                        "of 3- and 4-byte escaped sequences and their prefixes; all 65536 two-byte escaped sequences /%xy%zw "
-                       "(both tiers; thorough repeats the sweep in upper-case hex as a single-variable value); through the "
+                       "(both tiers); thorough adds the same sweep in upper-case hex as a single-variable value and embedded "
+                       "after a literal byte, every 3-byte escaped sequence with lead E0, E1, ED, EE, EF and every 4-byte "
+                       "sequence beginning F0 8F, F0 90, F1 80, F4 8F, F4 90, F5 80; through the "
                        "live server every raw byte inside a segment and all 256 escapes. Random spellings, 3-/4-byte "
                        "sequences beyond the grid and live random targets are sampled.",
     "trusted_base": COMMON_TB + [
